@@ -196,14 +196,17 @@ int main(int argc, char** argv) {
     signal(SIGFPE, on_signal);
     if (argc > 5) {
         std::string k, p;
-        if (load_replay(argv[5], k, p)) run_case(out, k, p);
+        // a replay of another unit's case (the replay file is handed to every unit) is not ours
+        if (load_replay(argv[5], k, p) && (k == "sort" || k == "heap" || k == "ins" || k == "intro")) run_case(out, k, p);
         out.close();
         return 0;
     }
-    for (auto& c : load_corpus(argc > 4 ? argv[4] : NULL)) run_case(out, c.first, c.second);
+    // the corpus directory is shared by all units of the property: take only this unit's kinds
+    for (auto& c : load_corpus(argc > 4 ? argv[4] : NULL))
+        if (c.first == "sort" || c.first == "heap" || c.first == "ins" || c.first == "intro") run_case(out, c.first, c.second);
     Rng g(seed);
     // 1. sort(): every length, the six named shapes (+2 more), the three comparators
-    size_t maxlen = thorough ? 1000 : 300;
+    size_t maxlen = thorough ? 600 : 300;
     for (size_t n = 0; n <= maxlen; n++)
         for (int shape = 0; shape < 6; shape++)
             for (int c = 0; c < 3; c++) gen_case(out, g, "sort", shape, n, c);
@@ -219,7 +222,7 @@ int main(int argc, char** argv) {
         if (n <= 160 || thorough) gen_case(out, g, "ins", (int)g.below(NSHAPES), n, (int)g.below(3));
     }
     // 3. seeded mix (small lengths dominate: every regime boundary 0,1,2,3,16,17)
-    long N = thorough ? 60000 : 1500;
+    long N = thorough ? 30000 : 1500;
     for (long i = 0; i < N; i++) {
         size_t n;
         switch (g.below(4)) {
@@ -238,13 +241,15 @@ int main(int argc, char** argv) {
     }
     // 4. large arrays (thorough): sort() up to 20000, heap regime up to 3000
     if (thorough) {
-        for (int shape = 0; shape < NSHAPES; shape++)
-            for (int c = 0; c < 3; c++) {
-                gen_case(out, g, "sort", shape, 2000 + g.below(18001), c);
-                gen_case(out, g, "sort", shape, 20000, c);
-                gen_case(out, g, "heap", shape, 1000 + g.below(2001), c);
-                gen_case(out, g, "intro", shape, 1000 + g.below(2001), c, (int)g.below(4));
-            }
+        for (int shape = 0; shape < NSHAPES; shape++) {
+            int c = shape % 3;
+            gen_case(out, g, "sort", shape, 2000 + g.below(18001), c);
+            gen_case(out, g, "heap", shape, 1000 + g.below(2001), (c + 1) % 3);
+            gen_case(out, g, "intro", shape, 1000 + g.below(2001), (c + 2) % 3, (int)g.below(4));
+        }
+        gen_case(out, g, "sort", 0, 20000, 0);
+        gen_case(out, g, "sort", 4, 20000, 2);
+        gen_case(out, g, "sort", 5, 20000, 1);
     }
     alarm(0);
     out.close();
